@@ -100,7 +100,7 @@ func c20Wrappers(c *Check, P string) {
 					continue
 				}
 				ok := true
-				for _, v := range Origins(r.Results[0]) {
+				for _, v := range RetOrigins(r, 0) {
 					if IsNilConst(v) {
 						okE, _ := NilEdges(fn, ResultOfAny(inner, 0))
 						if !GuardedBy(fn, r, okE) && !nilOnlyOnEdges(r, v, okE) {
@@ -143,7 +143,7 @@ func c20Wrappers(c *Check, P string) {
 		var T *types.Named
 		for _, f := range WithAnon(ctor) {
 			for _, r := range Returns(f) {
-				for _, o := range Origins(r.Results[0]) {
+				for _, o := range RetOrigins(r, 0) {
 					if mi, ok := o.(*ssa.MakeInterface); ok && mi.Type().String() == msgPkg+".Publisher" {
 						T = NamedOf(mi.X.Type())
 					}
@@ -186,7 +186,7 @@ func c20SubscriberPump(c *Check, P string) {
 	var T *types.Named
 	for _, f := range WithAnon(ctor) {
 		for _, r := range Returns(f) {
-			for _, o := range Origins(r.Results[0]) {
+			for _, o := range RetOrigins(r, 0) {
 				if mi, ok := o.(*ssa.MakeInterface); ok && mi.Type().String() == msgPkg+".Subscriber" {
 					T = NamedOf(mi.X.Type())
 				}
@@ -239,7 +239,10 @@ func c20SubscriberPump(c *Check, P string) {
 			continue
 		}
 		isMsg := func(v ssa.Value) bool {
-			return AllOrigins(v, func(o ssa.Value) bool { e, ok := o.(*ssa.Extract); return ok && e.Tuple == ssa.Value(recv) && e.Index == 0 })
+			return AllOrigins(v, func(o ssa.Value) bool {
+				e, ok := o.(*ssa.Extract)
+				return ok && e.Tuple == ssa.Value(recv) && e.Index == 0
+			})
 		}
 		sends := SendSites(pump, isOut)
 		c.Floor(P+".O1", "send on the output channel in the pump", len(sends), 1)
@@ -282,7 +285,7 @@ func c20Delay(c *Check, P string) {
 	}
 	var T *types.Named
 	for _, r := range Returns(ctor) {
-		for _, o := range Origins(r.Results[0]) {
+		for _, o := range RetOrigins(r, 0) {
 			if mi, ok := o.(*ssa.MakeInterface); ok {
 				T = NamedOf(mi.X.Type())
 			}
@@ -457,7 +460,7 @@ func c20Delay(c *Check, P string) {
 	}
 	for i, r := range Returns(A) {
 		k := fmt.Sprintf("stamp helper return#%d", i)
-		for _, v := range Origins(r.Results[0]) {
+		for _, v := range RetOrigins(r, 0) {
 			switch {
 			case IsNilConst(v):
 				// nil: metadata present, or a stamp happened, or AllowNoDelay
@@ -553,7 +556,9 @@ func c20MetricsRegister(c *Check, P string) {
 		c.Floor(P+".O3", "test `Register error == nil` in "+FnName(fn), len(regOK), 1)
 		isNew := func(v ssa.Value) bool {
 			for _, rg := range regs {
-				if sameValue(unwrapIface(v), unwrapIface(rg.Common().Args[0])) || AllOrigins(v, func(o ssa.Value) bool { return AnyOrigin(rg.Common().Args[0], func(a ssa.Value) bool { return a == o }) }) {
+				if sameValue(unwrapIface(v), unwrapIface(rg.Common().Args[0])) || AllOrigins(v, func(o ssa.Value) bool {
+					return AnyOrigin(rg.Common().Args[0], func(a ssa.Value) bool { return a == o })
+				}) {
 					return true
 				}
 			}
